@@ -8,6 +8,7 @@ import Verif.Model.CRL
           fail = the step at which the generation fails (2 GetCRL, 3 GetRevokedCertificates, 4 StoreCRL), default 0
       E = `s<thread>` | `r0`
       optional `idp=x<configured IDPurl, may be empty> dns=x<first DNS name>`: the output then ends with ` idp=x<hex of the distribution point URL>`
+  `cfg enabled=0|1 cache=<ns|-> renew=<ns|->`   the CRL section of a ca.json through Init / Validate / defaulting: `refused` | `cache=<ns> tick=<ns>[ crash]` (a period of 0 aborts time.NewTicker)
   `rsp enabled=0|1 pem=0|1 crl=<number>:<thisUpdate>:<nextUpdate>|none`   GET /crl: `<status> exp=<Expires as unix> pem=0|1 n=<number>`
       output: answers of the requests joined by `,` (ok already drop pend err), then every list
           stored, oldest first, as ` n=<number>,t=<thisUpdate>,u=<nextUpdate>,e=[<key>:<time>|…]` with entries
@@ -79,6 +80,12 @@ def eval (line : String) : Option String := do
       | _, _ => ""
     pure (String.intercalate "," (s.2.map (outS ·.out)) ++
       String.join (s.1.log.reverse.map fun c => " " ++ crlS c) ++ idp)
+  | some "cfg" =>
+    let dur (t : String) : Option (Option Int) := if t = "-" then some none else t.toInt?.map some
+    let c : CRLCfg := { enabled := (← lookup kv "enabled") = "1", cache := (← dur (← lookup kv "cache")), renew := (← dur (← lookup kv "renew")) }
+    pure (match pipeline c with
+      | none => "refused"
+      | some (d, t) => s!"cache={d} tick={t}" ++ (if c.enabled && t == 0 then " crash" else ""))
   | some "rsp" =>
     let enabled := (← lookup kv "enabled") = "1"
     let pem := (← lookup kv "pem") = "1"
